@@ -24,8 +24,11 @@ namespace HappyModel.C05
 structure ESt where
   cnt : Nat
   seen : Nat → Bool
+  /-- timer codes cancelled while pending / fired -/
+  cancelled : Nat → Bool := fun _ => false
+  fired : Nat → Bool := fun _ => false
 
-def ESt.init : ESt := ⟨0, fun _ => false⟩
+def ESt.init : ESt := ⟨0, fun _ => false, fun _ => false, fun _ => false⟩
 
 inductive SRule where
   /-- entity `e` answers kind `kA` only if no kind `kB` was delivered to it before -/
@@ -34,31 +37,59 @@ inductive SRule where
   | nth (e n : Nat) (em : Emit)
   /-- entity `e` answers kind `k` only the first time it sees it -/
   | dedup (e k : Nat) (em : Emit)
+  /-- on kind `k` entity `e` arms a timer (a self event of kind `kt` after `dt`) and sends itself a
+      kind-`kc` event after `dc` whose handler *cancels* that timer (`Event.cancel()`) if it is
+      still pending -/
+  | tmr (e k dt kt dc kc : Nat)
 deriving Repr
 
-/-- kinds on the wire: `kind + 64·(sender entity + 1)`; initial events carry the bare kind -/
+/-- kinds on the wire: `kind + 64·(sender entity + 1) + 4096·role`; initial events carry the bare
+    kind; `role = 0` plain, `2c+2` the timer with code `c`, `2c+3` its canceller -/
 def kindOf (kEnc : Nat) : Nat := kEnc % 64
-def senderOf (kEnc : Nat) : Option Nat := if kEnc / 64 = 0 then none else some (kEnc / 64 - 1)
+def senderOf (kEnc : Nat) : Option Nat := if (kEnc / 64) % 64 = 0 then none else some ((kEnc / 64) % 64 - 1)
+def roleOf (kEnc : Nat) : Nat := kEnc / 4096
+def isTimer (kEnc : Nat) : Bool := decide (2 ≤ roleOf kEnc) && roleOf kEnc % 2 == 0
+def isCanceller (kEnc : Nat) : Bool := decide (2 ≤ roleOf kEnc) && roleOf kEnc % 2 == 1
+def codeOf (kEnc : Nat) : Nat := (roleOf kEnc - 2) / 2
 
-def fireRule (σ : ESt) (me k : Nat) : SRule → List Emit
+/-- Cantor pairing (injective) -/
+def pairN (a b : Nat) : Nat := (a + b) * (a + b + 1) / 2 + b
+
+/-- the code of the timer a `tmr` rule arms when triggered by the delivery `(t, kEnc)` -/
+def timerCode (t kEnc dt kt dc kc : Nat) : Nat := pairN (pairN t kEnc) (pairN (pairN dt kt) (pairN dc kc))
+
+def fireRule (σ : ESt) (me k t kEnc : Nat) : SRule → List Emit
   | .first e kA kB em => if e == me && k == kA && !σ.seen kB then [em] else []
   | .nth e n em => if e == me && σ.cnt + 1 == n then [em] else []
   | .dedup e k0 em => if e == me && k == k0 && !σ.seen k0 then [em] else []
+  | .tmr e k0 dt kt dc kc =>
+    if e == me && k == k0 then
+      [⟨dt, me, kt + 4096 * (2 * timerCode t kEnc dt kt dc kc + 2)⟩,
+       ⟨dc, me, kc + 4096 * (2 * timerCode t kEnc dt kt dc kc + 3)⟩]
+    else []
 
 /-- one delivery to a stateful harness entity: new state, emissions (script lines first, then the
-    rules in order), each stamped with the sender -/
-def ruleStep (prog : List (Nat × Nat × Emit)) (sprog : List SRule) (σ : ESt) (me kEnc : Nat) :
+    rules in order), each stamped with the sender.  A cancelled timer is a *ghost*: the engine of the
+    code pops and skips it (lazy deletion); here it is delivered and changes nothing. -/
+def ruleStep (prog : List (Nat × Nat × Emit)) (sprog : List SRule) (σ : ESt) (t me kEnc : Nat) :
     ESt × List Emit :=
-  let k := kindOf kEnc
-  ({ cnt := σ.cnt + 1, seen := fun j => j == k || σ.seen j },
-   (((prog.filter (fun x => x.1 == me && x.2.1 == k)).map (·.2.2)) ++ sprog.flatMap (fireRule σ me k)).map
-     (fun x => ⟨x.delay, x.tgt, x.kind + 64 * (me + 1)⟩))
+  if isTimer kEnc && σ.cancelled (codeOf kEnc) then (σ, [])
+  else
+    let k := kindOf kEnc
+    ({ cnt := σ.cnt + 1, seen := fun j => j == k || σ.seen j,
+       cancelled := fun c => (isCanceller kEnc && c == codeOf kEnc && !σ.fired c) || σ.cancelled c,
+       fired := fun c => (isTimer kEnc && c == codeOf kEnc) || σ.fired c },
+     (((prog.filter (fun x => x.1 == me && x.2.1 == k)).map (·.2.2)) ++ sprog.flatMap (fireRule σ me k t kEnc)).map
+       (fun x => ⟨x.delay, x.tgt, x.kind + 64 * (me + 1)⟩))
 
 /-- the engine handler: entity-local -/
 def ruleHandlerL (prog : List (Nat × Nat × Emit)) (sprog : List SRule) : Handler (Nat → ESt) :=
   fun st e =>
-    let r := ruleStep prog sprog (st e.tgt) e.tgt e.kind
+    let r := ruleStep prog sprog (st e.tgt) e.time e.tgt e.kind
     (fun x => if x = e.tgt then r.1 else st x, r.2)
+
+/-- a log entry of a ghost: a timer whose code is cancelled in the final state of its entity -/
+def isGhost (st : Nat → ESt) (e : Ev) : Bool := isTimer e.kind && (st e.tgt).cancelled (codeOf e.kind)
 
 /-! ## creation indices as in the code -/
 
@@ -119,5 +150,25 @@ def parallelRunR {σ} (h : Handler σ) (c : Cfg) (strict : Bool) (fuel wEff endT
   else
     coordLoopR h c strict fuel wEff endT n
       { parts := ps, cur := 0, windows := 0, injected := 0, outboxed := 0, err := none }
+
+/-- `parallelRunR` for a run that starts at `start` (`ParallelSimulation(start_time=…)`) -/
+def parallelRunRFrom {σ} (h : Handler σ) (c : Cfg) (strict : Bool) (fuel wEff endT n start : Nat)
+    (ps : List (Part σ)) : Coord σ :=
+  if c.links.isEmpty then
+    { parts := runIndependent h endT fuel ps, cur := start, windows := 0, injected := 0, outboxed := 0,
+      err := none }
+  else
+    coordLoopR h c strict fuel wEff endT n
+      { parts := ps, cur := start, windows := 0, injected := 0, outboxed := 0, err := none }
+
+/-- `parallelRun` for a run that starts at `start` -/
+def parallelRunFrom {σ} (h : Handler σ) (c : Cfg) (strict : Bool) (fuel wEff endT n start : Nat)
+    (ps : List (Part σ)) : Coord σ :=
+  if c.links.isEmpty then
+    { parts := runIndependent h endT fuel ps, cur := start, windows := 0, injected := 0, outboxed := 0,
+      err := none }
+  else
+    coordLoop h c strict fuel wEff endT n
+      { parts := ps, cur := start, windows := 0, injected := 0, outboxed := 0, err := none }
 
 end HappyModel.C05
